@@ -33,14 +33,14 @@ PROPERTIES = {
                        "A x >= b <=> evaluate on random models incl. wide bounds and near-identical variants in sequence. ADDED: contracts.c01glue -- the real to_ge_polyhedron glue against the executable A-rs1 model (pyvc.rsmodel) for 4 tree shapes x all sign assignments, symbolic thresholds and leaf bounds: columns carry ids and bounds, rows hold at truth values iff the model is true (active) / always (inactive). reduced=True: the reduction happens inside the compiled extension and is outside every contract here (natively it was seen to lose solutions, DESIGN 8); only the glue's TRANSPORT of the extension's answer is under contract (open contract: fresh symbolic matrix) -- column 0 its right-hand side, the rest its matrix, columns labelled by statement index behind the support variable -- plus the stand-in rt.c01_reduced_transport against the compiled extension.",
     },
     "C02": {
-        "harness_modules": ["contracts.c01", "contracts.c01glue"],
+        "harness_modules": ["contracts.c01", "contracts.c01glue", "contracts.c05"],
         "rt": ["rt.logic:a_rs1_rows", "rt.logic:c02_solutions"],
         "level": "other",
         "assumptions": S_ALL + ["A-rs1 (see C01)"],
         "explanation": "deductive: lemma.enc_sound (completeness: a satisfying assignment extends to a point, X := truth values) and "
                        "lemma.sound_safe (for a node with no compound child under a negative sign, every in-bounds integer point of "
                        "its row has X_k <= truth(k); an asserted top row gives truth = 1), any number of children, induction on "
-                       "height; negation re-establishes the safe form (C05 post.safe). bounded stand-ins: A-rs1 row validation; all "
+                       "height; negation re-establishes the safe form: AtLeast.negate (real source, the harness of C05 -- complement, safe form over boolean leaves, id) is part of this check as well, since Imply / XNor / Not are built from it. bounded stand-ins: A-rs1 row validation; all "
                        "integer points of small polyhedra; sampled points for wide bounds; unsafe models as reachability canaries. ADDED: contracts.c01glue glue.c02.converse -- for solver-safe sign assignments every in-bounds integer point of the asserted polyhedron produced by the real glue over the A-rs1 model has a leaf part that makes the model true (bounded in shape, unbounded in values).",
     },
     "C03": {
@@ -178,7 +178,8 @@ PROPERTIES = {
                            "lexicographic ranking of ALL pairs of feasible points of small configurators (ids of every sort position; default lists of several entries). StingyConfigurator.select (shared with C15) forwards the request unchanged, incl. priorities on named sub-propositions. END TO END (contracts.c14shape): real cc.Xor/cc.Any/StingyConfigurator constructors, real flatten, default_prios and ge_polyhedron on a concrete three-rule configurator (default lists of one and two entries; configurator id sorting first / in the middle / last; plain rule with symbolic threshold, both signs): the non-default branch is exactly the items without the FIRST listed default, its column holds -2 in the default priority vector and every other column -1. ADDED: StingyConfigurator.default_prios (tag or -1 for every flattened node, over the assumed flatten contract) and ge_polyhedron_config._vectors_from_prios (the [default vector, user row] stack handed to the shadow compression; compression itself replaced by a recorder) under contract with replay. ADDED: the objective vector end to end -- the real _vectors_from_prios including the real shadow compression over the executable form of A-rs2 (2-3 columns, symbolic default levels in {-1,-2}, symbolic user priorities): sign, equal levels equal weights, dominance of every level over the sum of all lower levels (the premise of the Lean lemma dominance_two_level)."},
     "C15": {"harness_modules": ["contracts.c15", "contracts.c14"],
             "harness_filter": only("AtLeast.solve", "ge_polyhedron_config.select", "StingyConfigurator.select",
-                                   "ge_polyhedron_config._vectors_from_prios", "AtLeast.solve(built-in)"),
+                                   "ge_polyhedron_config._vectors_from_prios", "AtLeast.solve(built-in)",
+                                   "ge_polyhedron_config._vectors_from_prios(end-to-end)"),
             "rt": ["rt.config:c15_bridge"], "level": "other", "assumptions": S_ALL +
             ["to_ge_polyhedron / _vectors_from_prios are replaced on the receiver by stubs returning a prepared polyhedron / objective matrix "
              "with symbolic entries (their own contracts: C01, C13/C14); optimality of an exact solver's answer over that polyhedron is the "
